@@ -117,6 +117,10 @@ DEPENDENT_GROUPS = [
     ["isr.mp.pp.s_root(1,ph,ph,ia,jb)", "isr.mp.pp.intermediate_state(1,ph,ket,ia)",
      "isr.mp.pp.overlap_isr(1,ph,ph,ia,jb)", "m.mp.pp.isr_matrix_block(1,ph,ph,ia,jb)"],
     ["gs.mp.energy(2)", "gs.mp.amplitude(2,ph,ia)", "gs.mp.expectation_value(2,1)"],
+    ["expr.eri_orbenergy(num_t2)", "expr.factor_intermediates(num_t2,t2_1)",
+     "expr.reduce_expr(num_t2)"],
+    ["expr.eri_orbenergy(num_t2b)", "expr.factor_intermediates(num_t2b,t2_1)",
+     "expr.reduce_expr(num_t2b)"],
     ["m.mp.ip.isr_matrix_block(1,h,h,i,j)", "m.mp.ip.mvp_block_order(1,h,h,h,i)",
      "m.mp.ip.mvp(1,h,i)"],
     ["expr.factor_intermediates(t2_2_like,t2_2)",
@@ -158,7 +162,8 @@ POOL_PHASE = ["expr.expand_substitute(gap_kc)", "expr.expand_substitute(gap_me)"
               "expr.expand_substitute(gap_ld)", "expr.norm_times(gap_kcY)",
               "expr.norm_times(gap_ldY)", "expr.expand_intermediates(itmds,once)",
               "expr.expand_simplify(gap_kc)", "itmd.t1_2.expand_itmd(jb,once)",
-              "expr.simplify(alpha3)", "gs.mp.amplitude(2,ph,jb)"]
+              "expr.simplify(alpha3)", "gs.mp.amplitude(2,ph,jb)",
+              "expr.factor_intermediates(num_t2,t2_1)", "expr.eri_orbenergy(num_t2b)"]
 
 PANEL = ["m.mp.pp.isr_matrix_block(1,ph,ph,ia,jb)", "gs.mp.expand_norm_factor(6)",
          "isr.mp.pp.expand_S_taylor(6)", "isr.mp.ea.precursor(1,p,ket,a)",
